@@ -538,8 +538,11 @@ def run_cli(cli_bin, proj, root):
             "panicked": "panicked at" in err}
 
 
-def normalise(impl):
-    """The implementation's result in the model's output form."""
+def normalise(impl, dropped=None):
+    """The implementation's result in the model's output form.  The model speaks
+    about P1000 reports only (file not found / include not resolved / parse error);
+    every report that does not enter the comparison is counted in `dropped`
+    (code -> number; second audit: they used to be dropped without a trace)."""
     if impl.get("timeout"):
         return {"status": "timeout"}
     if impl.get("kind") not in ("program", "library"):
@@ -547,6 +550,8 @@ def normalise(impl):
     reps = []
     for r in impl["reports"]:
         if r["code"] != "P1000":
+            if dropped is not None:
+                dropped[r["code"]] = dropped.get(r["code"], 0) + 1
             continue
         m = re.match(r"Failed to open file `(.*)`\.$", r["msg"])
         if m and not r["labels"]:
@@ -555,7 +560,25 @@ def normalise(impl):
             reps.append(["inc", m.group(1)] + r["labels"][0])
         elif r["labels"]:
             reps.append(["perr", r["labels"][0][0]])
+        elif dropped is not None:
+            dropped["P1000 (neither `Failed to open file` nor labelled)"] = dropped.get("P1000 (neither `Failed to open file` nor labelled)", 0) + 1
     return {"status": "ok", "read": impl["read"], "files": [[n, bool(u)] for n, u in impl["files"]], "reports": reps}
+
+
+def front_report_counts(res):
+    """What the comparison of the front end's reports with the model keeps and what it drops, per report code."""
+    kept, dropped, projects = {}, {}, 0
+    for r in res:
+        for x in r["norm"].get("reports", []):
+            kept[x[0]] = kept.get(x[0], 0) + 1
+        for code, n in r.get("dropped", {}).items():
+            dropped[code] = dropped.get(code, 0) + n
+        projects += 1 if r.get("dropped") else 0
+    return {"compared_with_the_model(P1000 by kind)": kept, "dropped_by_code": dropped, "reports_dropped": sum(dropped.values()),
+            "projects_with_a_dropped_report": projects,
+            "rule": "Model.Includes speaks about P1000 reports (os = file not opened, inc = include not resolved, perr = parse "
+                    "error); every other report of parse_files (and a P1000 of no known form) is left out of the model "
+                    "comparison and counted here per code; the oracle of the property reads the unfiltered reports"}
 
 
 def nontrivial_key(proj, impl):
@@ -609,9 +632,10 @@ def evaluate(ctx, projs, base, with_model=True, with_cli=True):
     res = []
     for p, root, im, cl, mo in zip(projs, roots, impl, clis, models):
         idem = mo.pop("canon_idempotent", None) if isinstance(mo, dict) else None
+        dropped = {}
         res.append({"proj": p, "root": root, "impl": im, "cli": cl, "model": mo,
-                    "norm": normalise(im), "fails": oracle(p, root, im, cl),
-                    "canon_idempotent": idem})
+                    "norm": normalise(im, dropped), "fails": oracle(p, root, im, cl),
+                    "canon_idempotent": idem, "dropped": dropped})
     return res
 
 
@@ -676,6 +700,7 @@ def run(ctx, proofs):
             "projects_including_a_directory": sum(1 for r in res if r["proj"].get("shape") == "random" and any(
                 os.path.basename(i) in ("src", "sub", "other", "lib1", "lib2", ".", "..") for f in r["proj"]["files"].values() for i in f["incs"])),
             "tables_with_idempotent_canon": sum(1 for r in res if r["canon_idempotent"]),
+            "front_comparison_reports": front_report_counts(res),
         })
         ctx.assumptions += [
             "the abstract file system of the theorems (canon, is_dir, read_dir, join, parent, file_name) is a Section parameter; "
